@@ -23,6 +23,7 @@
 import NxsModel.Gen.CfgShape
 import NxsModel.Lifecycle
 import NxsModel.Lemmas.Lifecycle
+import NxsModel.Lemmas.R7Lifecycle
 namespace Nxs.C09
 open Nxs Nxs.Lifecycle Nxs.Config
 
@@ -396,5 +397,233 @@ example : (run (World.fresh ⟨[], []⟩ true 3) [.connect, .streamStart, .chDis
 example : (afterA ⟨[true], [3]⟩ true 3 (Desc.plain 1)
     [(.connect, {}), (.streamStart, ⟨.lost, .nack 1, .appliedAckLost⟩), (.disconnect, ⟨.nack 7, .lost, .lost⟩)]).connected
       = false := by decide +kernel
+
+/-! ## Round 7 additions (helper lemmas in Lemmas/R7Lifecycle.lean)
+
+  Whole histories instead of single calls: a bracketed session repairs what failed sessions left; histories without
+  a connect on a disconnected handler are inert; redundant connect / disconnect calls can be dropped from a history
+  without any other call noticing; the waiting time of a history; the reported description does not depend on the
+  device's dynamic state or on the history. -/
+
+/-- a reachable disconnected world is switched off (helper: the reachable-world invariant has two modes) -/
+theorem off_of_disconnected (d0 : Device) (started : Bool) (flags : Nat) (desc : Desc) (hist : List (Call × Ans))
+    (hd : WFDev d0) (hdis : (afterA d0 started flags desc hist).connected = false) :
+    Off (afterA d0 started flags desc hist) := by
+  rcases (reachA d0 started flags desc hd hist).mode with hoff | hon
+  · exact hoff
+  · exact absurd (hdis.symm.trans hon.1) (by decide)
+
+/-- A WELL-BRACKETED SESSION RETURNS TO THE INITIAL OBSERVABLE STATE, WHATEVER HAPPENED BEFORE.  After ANY earlier
+    history — including sessions in which the device rejected or lost the stop / disable requests, so that it was left
+    streaming with channels enabled — that ends disconnected, a session `connect, <any calls>, disconnect` in which the
+    device acknowledges leaves: handler disconnected, no receive / stream thread, interface stopped, low level
+    stopped, no description, the device's stream stopped and every channel disabled.
+    (for all devices, initial states, descriptions the client can decode, earlier histories with any answers, and
+    all lists of calls between the connect and the disconnect — further connects / disconnects included) -/
+theorem session_restores_initial (d0 : Device) (started : Bool) (flags : Nat) (desc : Desc)
+    (before : List (Call × Ans)) (mid : List Call) (hd : WFDev d0) (hk : DescOk d0 flags desc)
+    (hdis : (afterA d0 started flags desc before).connected = false) :
+    let w := (run (afterA d0 started flags desc before) (.connect :: mid ++ [.disconnect])).1
+    w.connected = false ∧ w.recvThr = false ∧ w.streamThr = false ∧ w.intf = false ∧ w.hasDev = false ∧
+    w.commStarted = false ∧ w.streamStarted = false ∧ w.reported = none ∧
+    w.devStarted = false ∧ (∀ b ∈ w.dev.en, b = false) ∧ w.dev.en.length = d0.en.length := by
+  intro w
+  have h0 := reachA d0 started flags desc hd before
+  obtain ⟨hoff, h1, h2⟩ := r7_session h0 hdis hk.noBadName mid
+  have f := hoff.facts
+  have hl := (r7_reach_from h0 (fun hc => absurd (hdis.symm.trans hc) (by decide))
+    (.connect :: mid ++ [.disconnect])).1.base.len
+  exact ⟨hoff.1, f.1, f.2.1, f.2.2.1, f.2.2.2.1, f.2.2.2.2.1, f.2.2.2.2.2.1, f.2.2.2.2.2.2, h1, h2, hl⟩
+
+/-- instance: a first session in which the device lost the stop and the enable request of disconnect leaves it
+    streaming with channel 0 enabled; the next (acknowledged) session — with a redundant connect, a subscription,
+    a stream start and an early disconnect in the middle — leaves it stopped with everything disabled -/
+example :
+    let before : List (Call × Ans) :=
+      [(.connect, {}), (.chEnable [0] true, {}), (.streamStart, {}), (.disconnect, ⟨.lost, .ack, .lost⟩)]
+    let w0 := afterA ⟨[false, true], [0, 5]⟩ false 3 (Desc.plain 2) before
+    let w := (run w0 (.connect :: [.connect, .sub 1, .chEnable [-1] true, .streamStart, .disconnect, .connect]
+                ++ [.disconnect])).1
+    w0.connected = false ∧ w0.devStarted = true ∧ w0.dev.en = [true, true] ∧
+    w.connected = false ∧ w.devStarted = false ∧ w.dev.en = [false, false] ∧ w.reported = none := by
+  decide +kernel
+
+/-- WHOLE HISTORIES ON A DISCONNECTED HANDLER ARE INERT.  On a disconnected handler (after any history, any answers)
+    no sequence of calls that contains no connect — however long, whatever the device would answer — reaches the
+    device (no frame written, device configuration and stream state untouched), starts a thread or waits; the handler
+    stays disconnected without description.  (`disconnected_is_inert_any_answers` is the one-call case.) -/
+theorem disconnected_history_is_inert (d0 : Device) (started : Bool) (flags : Nat) (desc : Desc)
+    (hist more : List (Call × Ans)) (hd : WFDev d0) (hc : ∀ c ∈ more, c.1 ≠ .connect)
+    (hdis : (afterA d0 started flags desc hist).connected = false) :
+    let w := afterA d0 started flags desc hist
+    let w' := afterA d0 started flags desc (hist ++ more)
+    w'.log = w.log ∧ w'.dev = w.dev ∧ w'.devStarted = w.devStarted ∧ w'.time = w.time ∧
+    w'.recvThr = false ∧ w'.streamThr = false ∧ w'.intf = false ∧ w'.connected = false ∧ w'.reported = none := by
+  intro w w'
+  have hoff := off_of_disconnected d0 started flags desc hist hd hdis
+  have e : w' = (runA w more).1 := by
+    show (runA _ (hist ++ more)).1 = _
+    rw [runA_append]; rfl
+  obtain ⟨o, l, dv, ds, t, -⟩ := r7_runA_off w more hc hoff
+  rw [e]
+  have f := o.facts
+  exact ⟨l, dv, ds, t, f.1, f.2.1, f.2.2.1, o.1, f.2.2.2.2.2.2⟩
+
+/-- instance: after a session, nine more calls (none a connect) with hostile answers: nothing written, no time -/
+example :
+    let hist : List (Call × Ans) := [(.connect, {}), (.streamStart, {}), (.disconnect, {})]
+    let more : List (Call × Ans) :=
+      [(.streamStart, ⟨.lost, .lost, .lost⟩), (.chEnable [0] true, ⟨.nack 3, .nack 3, .nack 3⟩), (.sub 0, {}),
+       (.disconnect, {}), (.channelsWrite, {}), (.chDivider [1] 7 true, {}), (.streamStop, {}), (.unsub 0, {}),
+       (.chDisableAll true, {})]
+    let w := afterA ⟨[false, true], [0, 5]⟩ true 3 (Desc.plain 2) hist
+    let w' := afterA ⟨[false, true], [0, 5]⟩ true 3 (Desc.plain 2) (hist ++ more)
+    w.connected = false ∧ w'.log = w.log ∧ w'.time = w.time ∧ w'.dev = w.dev ∧ 6 ≤ w.log.length := by
+  decide +kernel
+
+/-- IDEMPOTENCE AS A RELATION BETWEEN HISTORIES (so far judged by the oracle only).  A connect issued while connected
+    can be dropped from ANY history, from ANY starting world: the final world is the same and every other call
+    returns the same result (the dropped call itself returned `.ok`) -/
+theorem redundant_connect_dropped (W : World) (pre post : List (Call × Ans)) (a : Ans)
+    (h : (runA W pre).1.connected = true) :
+    (runA W (pre ++ (.connect, a) :: post)).1 = (runA W (pre ++ post)).1 ∧
+    (runA W (pre ++ (.connect, a) :: post)).2 = (runA W pre).2 ++ Res.ok :: (runA (runA W pre).1 post).2 ∧
+    (runA W (pre ++ post)).2 = (runA W pre).2 ++ (runA (runA W pre).1 post).2 :=
+  r7_runA_drop W pre post (.connect, a) (connect_idem _ a h)
+
+/-- … and a disconnect issued while disconnected -/
+theorem redundant_disconnect_dropped (W : World) (pre post : List (Call × Ans)) (a : Ans)
+    (h : (runA W pre).1.connected = false) :
+    (runA W (pre ++ (.disconnect, a) :: post)).1 = (runA W (pre ++ post)).1 ∧
+    (runA W (pre ++ (.disconnect, a) :: post)).2 = (runA W pre).2 ++ Res.ok :: (runA (runA W pre).1 post).2 ∧
+    (runA W (pre ++ post)).2 = (runA W pre).2 ++ (runA (runA W pre).1 post).2 :=
+  r7_runA_drop W pre post (.disconnect, a) (disconnect_idem _ a h)
+
+/-- connect; connect = connect and disconnect; disconnect = disconnect INSIDE any history, from any starting world
+    (the connect one when the first connect returns; a connect that raised raises again): the final world and the
+    results of all later calls are the same -/
+theorem connect_connect_in_history (W : World) (pre post : List (Call × Ans)) (a b : Ans)
+    (h : (step (runA W pre).1 .connect a).2 = .ok) :
+    (runA W (pre ++ (.connect, a) :: (.connect, b) :: post)).1 = (runA W (pre ++ (.connect, a) :: post)).1 ∧
+    (runA W (pre ++ (.connect, a) :: (.connect, b) :: post)).2 =
+      (runA W (pre ++ [(.connect, a)])).2 ++ Res.ok :: (runA (runA W (pre ++ [(.connect, a)])).1 post).2 := by
+  have hs : (runA W (pre ++ [(.connect, a)])).1 = (step (runA W pre).1 .connect a).1 := runA_snoc W pre (.connect, a)
+  have hi : step (runA W (pre ++ [(.connect, a)])).1 Call.connect b = ((runA W (pre ++ [(.connect, a)])).1, .ok) := by
+    rw [hs]; exact connect_twice _ a b h
+  have := r7_runA_drop W (pre ++ [(.connect, a)]) post (.connect, b) hi
+  simp only [List.append_assoc, List.singleton_append] at this
+  exact ⟨this.1, by simpa only [List.append_assoc, List.singleton_append] using this.2.1⟩
+
+theorem disconnect_disconnect_in_history (W : World) (pre post : List (Call × Ans)) (a b : Ans)
+    (h : (step (runA W pre).1 .disconnect a).2 = .ok) :
+    (runA W (pre ++ (.disconnect, a) :: (.disconnect, b) :: post)).1 =
+      (runA W (pre ++ (.disconnect, a) :: post)).1 := by
+  have hs : (runA W (pre ++ [(.disconnect, a)])).1 = (step (runA W pre).1 .disconnect a).1 :=
+    runA_snoc W pre (.disconnect, a)
+  have hdis : (step (runA W pre).1 .disconnect a).1.connected = false := by
+    rw [step_disconnect] at h ⊢
+    cases hc : (runA W pre).1.connected with
+    | false => simp only [Bool.false_eq_true, ↓reduceIte]; exact hc
+    | true =>
+      rw [hc] at h
+      simp only [↓reduceIte] at h ⊢
+      generalize (if (streamStop (runA W pre).1 a).hasDev = true then
+        cfgCall (streamStop (runA W pre).1 a) .disableAll true a
+        else (streamStop (runA W pre).1 a, Res.raised .assertion)) = r at *
+      obtain ⟨w2, res⟩ := r
+      cases res with
+      | ok => rfl
+      | raised e => exact nomatch (h : Res.raised e = Res.ok)
+      | ack s code => exact nomatch (h : Res.ack s code = Res.ok)
+  have hi : step (runA W (pre ++ [(.disconnect, a)])).1 Call.disconnect b =
+      ((runA W (pre ++ [(.disconnect, a)])).1, .ok) := by
+    rw [hs]; exact disconnect_idem _ b hdis
+  have := r7_runA_drop W (pre ++ [(.disconnect, a)]) post (.disconnect, b) hi
+  simp only [List.append_assoc, List.singleton_append] at this
+  exact this.1
+
+/-- instance: the doubled connect / doubled disconnect change neither the frames written nor any result seen by
+    the other calls -/
+example :
+    let W := World.fresh ⟨[false, true], [0, 5]⟩ true 3
+    let h1 : List (Call × Ans) := [(.connect, {}), (.connect, ⟨.lost, .lost, .lost⟩), (.chEnable [0] true, {}),
+      (.streamStart, {}), (.disconnect, {}), (.disconnect, {}), (.channelsWrite, {})]
+    let h2 : List (Call × Ans) := [(.connect, {}), (.chEnable [0] true, {}),
+      (.streamStart, {}), (.disconnect, {}), (.channelsWrite, {})]
+    (runA W h1).1.log = (runA W h2).1.log ∧ (runA W h1).1.time = (runA W h2).1.time ∧
+    (runA W h1).2 = [.ok, .ok, .ok, .ok, .ok, .ok, .raised .assertion] ∧
+    (runA W h2).2 = [.ok, .ok, .ok, .ok, .raised .assertion] := by decide +kernel
+
+/-- NEVER BLOCK, OVER A WHOLE HISTORY: `k` public calls wait for the device at most `3.8 k` s (high level) resp.
+    `2 k` s (low level) in total, from any world, whatever the device answers -/
+theorem history_bounded (W : World) (hist : List (Call × Ans)) :
+    (runA W hist).1.time ≤ W.time + 38 * hist.length := r7_runA_time W hist
+theorem comm_history_bounded (W : World) (hist : List (CommCall × Ans)) :
+    (commRun W hist).1.time ≤ W.time + 20 * hist.length := r7_commRun_time W hist
+
+/-- instance: a history with two lost start requests and a lost divider request stays inside the bound (and the
+    bound is not trivially loose: it is reached within a factor of 4) -/
+example :
+    let w := afterA ⟨[false, true], [0, 5]⟩ true 3 (Desc.plain 2)
+      [(.connect, {}), (.streamStart, ⟨.lost, .lost, .lost⟩), (.streamStop, ⟨.lost, .ack, .ack⟩), (.disconnect, {})]
+    w.time ≤ 38 * 4 ∧ 38 ≤ w.time := by decide +kernel
+
+/-- THE REPORTED DESCRIPTION DEPENDS ON NOTHING DYNAMIC: two handlers in front of devices with the same static
+    description (channel count, flags, `Desc`) — whatever the devices' enable / divider state, whether they were
+    left streaming, whatever the two histories were and whatever the devices answered — report the SAME
+    description after a connect -/
+theorem reconnect_description_independent (d0 d0' : Device) (started started' : Bool) (flags : Nat) (desc : Desc)
+    (hist hist' : List (Call × Ans)) (a a' : Ans) (hd : WFDev d0) (hd' : WFDev d0')
+    (hl : d0'.en.length = d0.en.length) (hk : DescOk d0 flags desc) :
+    (afterA d0 started flags desc (hist ++ [(.connect, a)])).reported =
+      (afterA d0' started' flags desc (hist' ++ [(.connect, a')])).reported ∧
+    (afterA d0 started flags desc (hist ++ [(.connect, a)])).reported = some (description d0 flags desc) := by
+  have hk' : DescOk d0' flags desc := by
+    unfold DescOk at hk ⊢; rw [hl]; exact hk
+  have e1 := (reconnect_same_description_any_answers d0 started flags desc hist a hd hk).2.1
+  have e2 := (reconnect_same_description_any_answers d0' started' flags desc hist' a' hd' hk').2.1
+  have ed : description d0' flags desc = description d0 flags desc := by unfold description; rw [hl]
+  exact ⟨e1.trans (ed ▸ e2).symm, e1⟩
+
+example :
+    (afterA ⟨[false, true], [0, 5]⟩ true 3 (Desc.plain 2)
+      [(.connect, {}), (.streamStart, ⟨.lost, .nack 2, .lost⟩), (.disconnect, ⟨.nack 1, .lost, .lost⟩),
+       (.connect, {})]).reported
+    = (afterA ⟨[true, false], [200, 0]⟩ false 3 (Desc.plain 2) [(.sub 0, {}), (.connect, {})]).reported := by
+  decide +kernel
+
+/-- WHAT A CONNECT SENDS IS FIXED: on a disconnected handler — after any history, whatever the device answered — a
+    connect in front of a decodable description writes exactly: the stream-stop request, the common-info request, the
+    rx-padding bytes if the interface does not have that padding yet, one channel-info request per channel 0..n-1, in
+    this order and nothing else; it waits exactly the two draining periods (1.6 s), returns, and the device's
+    configuration is untouched -/
+theorem connect_requests_fixed (d0 : Device) (started : Bool) (flags : Nat) (desc : Desc) (hist : List (Call × Ans))
+    (a : Ans) (hd : WFDev d0) (hk : DescOk d0 flags desc)
+    (hdis : (afterA d0 started flags desc hist).connected = false) :
+    let w := afterA d0 started flags desc hist
+    let r := step w .connect a
+    r.1.log = w.log ++ okFrame (Requests.frameStart false) ++ okFrame Requests.frameCmninfo ++ padWrite w ++
+      chinfoFrames 0 d0.en.length ∧
+    r.1.time = w.time + 16 ∧ r.2 = .ok ∧ r.1.dev = w.dev ∧ r.1.devStarted = false := by
+  intro w r
+  have h := reachA d0 started flags desc hd hist
+  have hoff := off_of_disconnected d0 started flags desc hist hd hdis
+  have hs : w.commStarted = false := hoff.facts.2.2.2.2.1
+  have e : r = _ := step_connect_ok w a hdis (h.base.badName.trans hk.noBadName)
+  rw [commConnect_stopped w hs] at e
+  have hl : w.dev.en.length = d0.en.length := h.base.len
+  rw [e]
+  refine ⟨?_, ?_, rfl, rfl, rfl⟩
+  · show w.log ++ _ ++ _ ++ _ ++ chinfoFrames 0 w.dev.en.length = _
+    rw [hl]
+  · show w.time + drain + drain = _
+    rw [drain_eq]
+
+/-- instance: the second connect of a history writes stop, common info and two channel infos (4 frames), 1.6 s -/
+example :
+    let hist : List (Call × Ans) := [(.connect, {}), (.streamStart, {}), (.disconnect, ⟨.lost, .lost, .lost⟩)]
+    let w := afterA ⟨[false, true], [0, 5]⟩ true 3 (Desc.plain 2) hist
+    let r := step w .connect {}
+    w.connected = false ∧ r.1.log.length = w.log.length + 4 ∧ r.1.time = w.time + 16 := by decide +kernel
 
 end Nxs.C09
